@@ -25,6 +25,8 @@ type ImplLib struct {
 	// holds after that is not specified by any property, so content observations are
 	// reported as "tainted" on both sides until the handle is replaced
 	taintMode, tainted bool
+	lastPtsStr         string
+	lastPts            []wt.Point
 }
 
 func NewImplLib() *ImplLib {
@@ -342,9 +344,17 @@ func (m *ImplLib) exec1(line string) (obs string) {
 		}
 		k, _ := strconv.Atoi(tk[1])
 		now, _ := strconv.ParseUint(tk[2], 10, 32)
-		pts, err := parsePts(tk[3])
-		if err != nil {
-			return "bad-op"
+		// a caller may well hand the same slice to two calls: when the batch is literally the one
+		// of the previous batch update, the very slice that call was given is passed again —
+		// whatever the library did to it
+		pts := m.lastPts
+		if tk[3] != m.lastPtsStr || pts == nil {
+			var err error
+			pts, err = parsePts(tk[3])
+			if err != nil {
+				return "bad-op"
+			}
+			m.lastPtsStr, m.lastPts = tk[3], pts
 		}
 		return errObs(m.db.UpdatePointsForArchive(pts, k, wt.Timestamp(now)))
 	case "fetch":
